@@ -3,13 +3,13 @@
    every kind with ON / USING, WHERE, GROUP BY (expressions, ROLLUP (...), CUBE (...)), HAVING, ORDER BY with direction and
    NULLS FIRST | LAST, LIMIT, OFFSET; set
    operations (UNION | EXCEPT | INTERSECT [ALL], left-nested as the grammar prescribes); WITH [RECURSIVE] with column
-   lists and [NOT] MATERIALIZED; INSERT (VALUES rows | query, RETURNING), UPDATE (SET, WHERE, RETURNING), DELETE
+   lists and [NOT] MATERIALIZED; INSERT (VALUES rows | query, ON CONFLICT, RETURNING), UPDATE (SET, WHERE, RETURNING), DELETE
    (WHERE, RETURNING).  Expressions inside statements are the reference expressions of Spec/RefGrammar.v.
 
    [render_*] gives the token list for every parenthesisation choice of every expression ([srho]: clause number and
    position -> [rho]); [ast_of_*] is the prescribed tree (typed mirror of Model/Expr.v).
    Not in this reference grammar (see design/C03.md): SELECT ALL, t.*, derived tables, LATERAL, GROUPING SETS, FETCH,
-   FOR, sub-query expressions, window functions, ON CONFLICT, MERGE, DDL.
+   FOR, sub-query expressions, window functions, ON DUPLICATE KEY, MERGE, DDL.
    Definitions only. *)
 From Coq Require Import List String Ascii Bool Arith NArith ZArith DecimalString Decimal.
 From GV Require Import Spec.RefGrammar Model.Expr.
@@ -38,6 +38,7 @@ Definition TySource := TyOther 373.
 Definition TyMaterialized := TyOther 374.
 Definition TyReturning := TyOther 379.
 Definition TyGroupingSets := TyOther 390.
+Definition TyConstraint := TyOther 338.
 Definition TyRollup := TyOther 391.
 Definition TyCube := TyOther 392.
 Definition TyGrouping := TyOther 393.
@@ -84,9 +85,15 @@ Inductive mquery :=
 Record mcte := MkCte { c_name : string; c_cols : list string; c_mat : option bool; c_body : mquery }.
 Record mwith := MkWith { w_rec : bool; w_ctes : list mcte }.
 
+(* ON CONFLICT [( columns ) | ON CONSTRAINT name] DO NOTHING | DO UPDATE SET column = expr, ... [WHERE expr] *)
+Inductive mctarget := CtNone | CtCols (cols : list string) | CtConstraint (name : string).
+Inductive mcaction := CaNothing | CaUpdate (sets : list (string * mexpr)) (where_ : option mexpr).
+Record mconflict := MkConflict { cf_target : mctarget; cf_action : mcaction }.
+
 Inductive mbody :=
   | BQuery (q : mquery)
-  | BInsert (table : list string) (cols : list string) (src : list (list mexpr) + mquery) (returning : list mexpr)
+  | BInsert (table : list string) (cols : list string) (src : list (list mexpr) + mquery) (conflict : option mconflict)
+            (returning : list mexpr)
   | BUpdate (table : list string) (sets : list (string * mexpr)) (where_ : option mexpr) (returning : list mexpr)
   | BDelete (table : list string) (where_ : option mexpr) (returning : list mexpr).
 
@@ -96,7 +103,7 @@ Record mstmt := MkStmt { st_with : option mwith; st_body : mbody }.
 Definition srho := nat -> nat -> rho.
 Definition cl_items := 0.  Definition cl_on := 1.  Definition cl_where := 2.  Definition cl_group := 3.
 Definition cl_having := 4. Definition cl_order := 5. Definition cl_values := 6. Definition cl_set := 7.
-Definition cl_returning := 8. Definition cl_don := 9.
+Definition cl_returning := 8. Definition cl_don := 9. Definition cl_cset := 10. Definition cl_cwhere := 11.
 (* the k-th SELECT of a set-operation chain / the k-th CTE body uses a shifted choice function *)
 Definition shift (sr : srho) (k : nat) : srho := fun c i => sr (c + 16 * k) i.
 
@@ -221,18 +228,40 @@ Fixpoint rows_toks (sr : srho) (i : nat) (rows : list (list mexpr)) : list (list
   | [] => []
   | row :: tl => (tLP :: sep_by [tComma] (exprs_toks sr cl_values i row) ++ [tRP]) :: rows_toks sr (i + List.length row) tl
   end.
-Fixpoint sets_toks (sr : srho) (i : nat) (l : list (string * mexpr)) : list (list token) :=
-  match l with [] => [] | (c, e) :: tl => (Tk TyIdent c :: Tk TyEq "=" :: render 0 (sr cl_set i) e) :: sets_toks sr (S i) tl end.
+(* column = expr, ... ; the expressions take their parenthesisation choices from clause [c] *)
+Fixpoint assign_toks (sr : srho) (c : nat) (i : nat) (l : list (string * mexpr)) : list (list token) :=
+  match l with [] => [] | (n, e) :: tl => (Tk TyIdent n :: Tk TyEq "=" :: render 0 (sr c i) e) :: assign_toks sr c (S i) tl end.
+Definition sets_toks (sr : srho) (i : nat) (l : list (string * mexpr)) : list (list token) := assign_toks sr cl_set i l.
+Definition where_toks_at (r : rho) (o : option mexpr) : list token := opt_clause [Tk TyWhere "WHERE"] (render 0 r) o.
 
+Definition conflict_toks (sr : srho) (c : option mconflict) : list token :=
+  match c with
+  | None => []
+  | Some c =>
+      Tk TyOn "ON" :: Tk TyIdent "CONFLICT" ::
+      match cf_target c with
+      | CtNone => []
+      | CtCols cols => tLP :: idents_toks cols ++ [tRP]
+      | CtConstraint n => [Tk TyOn "ON"; Tk TyConstraint "CONSTRAINT"; Tk TyIdent n]
+      end
+      ++ Tk TyIdent "DO" ::
+      match cf_action c with
+      | CaNothing => [Tk TyIdent "NOTHING"]
+      | CaUpdate sets wh =>
+          Tk TyUpdate "UPDATE" :: Tk TySet "SET" :: sep_by [tComma] (assign_toks sr cl_cset 0 sets)
+          ++ where_toks_at (sr cl_cwhere 0) wh
+      end
+  end.
 Definition render_body (sr : srho) (base : nat) (b : mbody) : list token :=
   match b with
   | BQuery q => render_query sr base q
-  | BInsert t cols src ret =>
+  | BInsert t cols src cf ret =>
       Tk TyInsert "INSERT" :: Tk TyInto "INTO" :: path_toks t ++ cols_toks cols
       ++ match src with
          | inl rows => Tk TyValues "VALUES" :: sep_by [tComma] (rows_toks (shift sr base) 0 rows)
          | inr q => render_query sr base q
          end
+      ++ conflict_toks (shift sr (base + match src with inl _ => 0 | inr q => qsize q end)) cf
       ++ returning_toks (shift sr (base + match src with inl _ => 0 | inr q => qsize q end)) ret
   | BUpdate t sets wh ret =>
       Tk TyUpdate "UPDATE" :: path_toks t ++ Tk TySet "SET" :: sep_by [tComma] (sets_toks (shift sr base) 0 sets)
@@ -304,14 +333,20 @@ Definition ast_of_with (w : option mwith) : option gwith :=
   option_map (fun w => GWith (w_rec w) (map ast_of_cte (w_ctes w))) w.
 Definition ast_of_sets (l : list (string * mexpr)) : list (gexpr * gexpr) :=
   map (fun ce : string * mexpr => (GIdent (fst ce) "", ast_of (snd ce))) l.
+Definition ast_of_conflict (c : mconflict) : gconflict :=
+  GConflict (match cf_target c with CtCols cols => map (fun c => GIdent c "") cols | _ => [] end)
+            (match cf_target c with CtConstraint n => n | _ => "" end)
+            (match cf_action c with CaNothing => true | _ => false end)
+            (match cf_action c with CaUpdate sets _ => ast_of_sets sets | _ => [] end)
+            (match cf_action c with CaUpdate _ wh => option_map ast_of wh | _ => None end).
 Definition ast_of_stmt_w (w : option gwith) (b : mbody) : gstmt :=
   match b with
   | BQuery q => ast_of_query_w w q
-  | BInsert t cols src ret =>
+  | BInsert t cols src cf ret =>
       GInsert w (join_dot t) (map (fun c => GIdent c "") cols)
               (match src with inl rows => map (map ast_of) rows | inr _ => [] end)
               (match src with inl _ => None | inr q => Some (ast_of_query q) end)
-              (map ast_of ret) None []
+              (map ast_of ret) (option_map ast_of_conflict cf) []
   | BUpdate t sets wh ret => GUpdate w (join_dot t) "" (ast_of_sets sets) [] (option_map ast_of wh) (map ast_of ret)
   | BDelete t wh ret => GDelete w (join_dot t) "" [] (option_map ast_of wh) (map ast_of ret)
   end.
@@ -368,13 +403,15 @@ Fixpoint query_ok (q : mquery) : bool :=
   | QSetOp l _ _ r => query_ok l && operands_plain l && select_ok r && plain_operand r
   end.
 
-(* what may follow a SELECT: end of input, `;`, `)`, a set operator, RETURNING (of an enclosing INSERT) *)
+(* what may follow a SELECT: end of input, `;`, `)`, a set operator, RETURNING / ON CONFLICT (of an enclosing INSERT) *)
 Definition sel_stop (t : token) : bool :=
-  (isT t TyEOF || isT t TySemicolon || isT t TyRParen || isT t TyUnion || isT t TyExcept || isT t TyIntersect || isT t TyReturning)
+  (isT t TyEOF || isT t TySemicolon || isT t TyRParen || isT t TyUnion || isT t TyExcept || isT t TyIntersect || isT t TyReturning
+   || isT t TyOn)
   && stops 0 t.
 Definition sel_follow (stop : list token) : Prop := exists t rest, stop = t :: rest /\ sel_stop t = true.
 (* what may follow a whole query expression: not a set operator *)
-Definition query_stop (t : token) : bool := (isT t TyEOF || isT t TySemicolon || isT t TyRParen || isT t TyReturning) && stops 0 t.
+Definition query_stop (t : token) : bool :=
+  (isT t TyEOF || isT t TySemicolon || isT t TyRParen || isT t TyReturning || isT t TyOn) && stops 0 t.
 Definition query_follow (stop : list token) : Prop := exists t rest, stop = t :: rest /\ query_stop t = true.
 (* what may follow a whole statement: end of input, `;`, `)` (the parser also looks at the literal for RETURNING) *)
 Definition stmt_stop (t : token) : bool :=
@@ -423,11 +460,17 @@ Definition with_ok (w : option mwith) : bool :=
   match w with None => true | Some w => negb (Nat.eqb (List.length (w_ctes w)) 0) && forallb cte_ok (w_ctes w) end.
 Definition path_ok (p : list string) : bool := negb (Nat.eqb (List.length p) 0).
 Definition row_ok (row : list mexpr) : bool := negb (Nat.eqb (List.length row) 0) && forallb ref_expr row.
+Definition conflict_ok (c : mconflict) : bool :=
+  match cf_target c with CtCols cols => negb (Nat.eqb (List.length cols) 0) | _ => true end
+  && match cf_action c with
+     | CaNothing => true
+     | CaUpdate sets wh => negb (Nat.eqb (List.length sets) 0) && forallb (fun ce => ref_expr (snd ce)) sets && optb ref_expr wh
+     end.
 Definition body_ok (b : mbody) : bool :=
   match b with
   | BQuery q => query_ok q
-  | BInsert t cols src ret =>
-      path_ok t && forallb ref_expr ret
+  | BInsert t cols src cf ret =>
+      path_ok t && forallb ref_expr ret && optb conflict_ok cf
       && match src with
          | inl rows => negb (Nat.eqb (List.length rows) 0) && forallb row_ok rows
          | inr q => query_ok q
@@ -446,7 +489,7 @@ Definition stmt_bare_alias_free (s : mstmt) : bool :=
   match st_with s with None => true | Some w => forallb (fun c => query_bare_alias_free (c_body c)) (w_ctes w) end
   && match st_body s with
      | BQuery q => query_bare_alias_free q
-     | BInsert _ _ (inr q) _ => query_bare_alias_free q
+     | BInsert _ _ (inr q) _ _ => query_bare_alias_free q
      | _ => true
      end.
 
@@ -459,14 +502,21 @@ Fixpoint ctes_depth (sr : srho) (base : nat) (l : list mcte) : nat :=
   end.
 Fixpoint rows_depth (sr : srho) (i : nat) (rows : list (list mexpr)) : nat :=
   match rows with [] => 0 | row :: tl => Nat.max (exprs_depth sr cl_values i row) (rows_depth sr (i + List.length row) tl) end.
-Fixpoint sets_depth (sr : srho) (i : nat) (l : list (string * mexpr)) : nat :=
-  match l with [] => 0 | (_, e) :: tl => Nat.max (pdepth 0 (sr cl_set i) e) (sets_depth sr (S i) tl) end.
+Fixpoint assign_depth (sr : srho) (c : nat) (i : nat) (l : list (string * mexpr)) : nat :=
+  match l with [] => 0 | (_, e) :: tl => Nat.max (pdepth 0 (sr c i) e) (assign_depth sr c (S i) tl) end.
+Definition sets_depth (sr : srho) (i : nat) (l : list (string * mexpr)) : nat := assign_depth sr cl_set i l.
+Definition conflict_depth (sr : srho) (c : option mconflict) : nat :=
+  match c with
+  | Some (MkConflict _ (CaUpdate sets wh)) => Nat.max (assign_depth sr cl_cset 0 sets) (opt_depth (sr cl_cwhere 0) wh)
+  | _ => 0
+  end.
 Definition body_depth (sr : srho) (base : nat) (b : mbody) : nat :=
   match b with
   | BQuery q => 2 + query_depth sr base q
-  | BInsert _ _ src ret =>
+  | BInsert _ _ src cf ret =>
+      let k := base + match src with inl _ => 0 | inr q => qsize q end in
       Nat.max (match src with inl rows => 1 + rows_depth (shift sr base) 0 rows | inr q => 2 + query_depth sr base q end)
-              (1 + exprs_depth (shift sr (base + match src with inl _ => 0 | inr q => qsize q end)) cl_returning 0 ret)
+        (Nat.max (1 + conflict_depth (shift sr k) cf) (1 + exprs_depth (shift sr k) cl_returning 0 ret))
   | BUpdate _ sets wh ret =>
       1 + Nat.max (sets_depth (shift sr base) 0 sets)
             (Nat.max (opt_depth (shift sr base cl_where 0) wh) (exprs_depth (shift sr base) cl_returning 0 ret))
@@ -511,10 +561,12 @@ Definition ex_stmt_insert : mstmt :=
     (BInsert ["s"; "t"] ["a"; "b"]
        (inr (QSelect (MkSelect false [] [IExpr (MIdent false "a") None; IExpr (MFunc "f" false [MIdent false "b"]) (Some (true, "fb"))]
                                [MkTable ["u"] None] [] None [] None [] None None)))
+       (Some (MkConflict (CtCols ["a"]) (CaUpdate [("b", MBin BAdd (MQIdent "excluded" "b") (MNum "1"))] (Some (MBin (BCmp CGt) (MQIdent "t" "a") (MNum "0"))))))
        [MIdent false "a"; MBin BMul (MIdent false "b") (MNum "2")]).
 Example ex_stmts_ok : stmt_ok ex_stmt_with = true /\ stmt_ok ex_stmt_insert = true. Proof. split; reflexivity. Qed.
 Example ex_stmt_insert_text :
   map lit (render_stmt (fun _ _ => no_parens) ex_stmt_insert)
   = ["INSERT"; "INTO"; "s"; "."; "t"; "("; "a"; ","; "b"; ")"; "SELECT"; "a"; ","; "f"; "("; "b"; ")"; "AS"; "fb"; "FROM"; "u";
+     "ON"; "CONFLICT"; "("; "a"; ")"; "DO"; "UPDATE"; "SET"; "b"; "="; "excluded"; "."; "b"; "+"; "1"; "WHERE"; "t"; "."; "a"; ">"; "0";
      "RETURNING"; "a"; ","; "b"; "*"; "2"].
 Proof. reflexivity. Qed.
